@@ -103,6 +103,138 @@ class Canon(ast.NodeTransformer):
 
 
 # ----------------------------------------------------------------------------------------------
+# local aliases of attribute paths
+# ----------------------------------------------------------------------------------------------
+
+def _attr_path(e: ast.AST) -> Optional[str]:
+    parts = []
+    while isinstance(e, ast.Attribute):
+        parts.append(e.attr)
+        e = e.value
+    if isinstance(e, ast.Name) and parts:
+        return '.'.join([e.id] + parts[::-1])
+    return None
+
+
+class _PathSubst(ast.NodeTransformer):
+    def __init__(self, name: str, path: ast.AST):
+        self.name, self.path = name, path
+
+    def visit_Name(self, node):
+        if node.id == self.name and isinstance(node.ctx, ast.Load):
+            import copy
+            return ast.copy_location(copy.deepcopy(self.path), node)
+        return node
+
+
+def alias_paths(tree: ast.AST, computed=frozenset()) -> ast.AST:
+    """`v = a.b.c` (v assigned once, at the top level of the function body, a.b.c not re-bound in the function) -> later reads of v become a.b.c;
+    `v = a.b = E` -> `a.b = E` with v read as a.b.  The alias and the path name the same object, so rules see one spelling."""
+    owner = {}
+    for c in ast.walk(tree):
+        if isinstance(c, ast.ClassDef):
+            for n in c.body:
+                if isinstance(n, ast.FunctionDef):
+                    owner[id(n)] = c.name
+    for fn in [n for n in ast.walk(tree) if isinstance(n, ast.FunctionDef)]:
+        params = {a.arg for a in fn.args.args + fn.args.kwonlyargs + fn.args.posonlyargs}
+        self_name = fn.args.args[0].arg if id(fn) in owner and fn.args.args and not any(
+            isinstance(d, ast.Name) and d.id == 'staticmethod' for d in fn.decorator_list) else None
+        own_computed = computed.of_class(owner[id(fn)]) if self_name and hasattr(computed, 'of_class') else None
+
+        def is_computed(root, attrs):
+            for k, a in enumerate(attrs):
+                if k == 0 and root == self_name and own_computed is not None:
+                    if a in own_computed:
+                        return True
+                elif a in computed:
+                    return True
+            return False
+        if fn.args.vararg:
+            params.add(fn.args.vararg.arg)
+        if fn.args.kwarg:
+            params.add(fn.args.kwarg.arg)
+        changed = True
+        rounds = 0
+        while changed and rounds < 6:
+            changed = False
+            rounds += 1
+            stores = {}
+            for x in ast.walk(fn):
+                if isinstance(x, ast.Name) and isinstance(x.ctx, (ast.Store, ast.Del)):
+                    stores[x.id] = stores.get(x.id, 0) + 1
+            attr_stores = {x.attr for x in ast.walk(fn) if isinstance(x, ast.Attribute) and isinstance(x.ctx, (ast.Store, ast.Del))}
+            for i, st in enumerate(fn.body):
+                if not isinstance(st, ast.Assign):
+                    continue
+                names = [t for t in st.targets if isinstance(t, ast.Name)]
+                paths = [t for t in st.targets if isinstance(t, ast.Attribute) and _attr_path(t)]
+                v = path = None
+                if len(st.targets) == 1 and names and _attr_path(st.value):
+                    v, path = names[0].id, st.value
+                    root = _attr_path(path).split('.')[0]
+                    attrs = _attr_path(path).split('.')[1:]
+                    if is_computed(root, attrs):
+                        continue
+                    if stores.get(root, 0) > (0 if root in params else 1) or any(a in attr_stores for a in attrs):
+                        continue
+                    drop_stmt = True
+                elif len(st.targets) == 2 and len(names) == 1 and len(paths) == 1:
+                    v, path = names[0].id, paths[0]
+                    attrs = _attr_path(path).split('.')[1:]
+                    n_same = sum(1 for x in ast.walk(fn) if isinstance(x, ast.Attribute) and isinstance(x.ctx, ast.Store) and x.attr == attrs[-1])
+                    if n_same != 1:
+                        continue
+                    drop_stmt = False
+                elif len(st.targets) == 1 and len(paths) == 1 and isinstance(st.value, ast.Name) and st.value.id not in params and stores.get(st.value.id, 0) == 1:
+                    # a.b = v   (v a single-assignment local): from here on v and a.b name the same object
+                    v, path = st.value.id, paths[0]
+                    attrs = _attr_path(path).split('.')[1:]
+                    n_same = sum(1 for x in ast.walk(fn) if isinstance(x, ast.Attribute) and isinstance(x.ctx, ast.Store) and x.attr == attrs[-1])
+                    later = any(isinstance(x, ast.Name) and x.id == v and isinstance(x.ctx, ast.Load) for s_ in fn.body[i + 1:] for x in ast.walk(s_))
+                    if n_same != 1 or not later:
+                        continue
+                    import copy
+                    load_path = copy.deepcopy(path)
+                    for x in ast.walk(load_path):
+                        if hasattr(x, 'ctx'):
+                            x.ctx = ast.Load()
+                    sub = _PathSubst(v, load_path)
+                    fn.body[i + 1:] = [sub.visit(s_) for s_ in fn.body[i + 1:]]
+                    # `v = E` directly before and v read nowhere else: a.b = E
+                    prev = fn.body[i - 1] if i > 0 else None
+                    reads = sum(1 for x in ast.walk(fn) if isinstance(x, ast.Name) and x.id == v and isinstance(x.ctx, ast.Load))
+                    if reads == 1 and isinstance(prev, ast.Assign) and len(prev.targets) == 1 and isinstance(prev.targets[0], ast.Name) and prev.targets[0].id == v:
+                        st.value = prev.value
+                        ast.copy_location(st, prev)
+                        del fn.body[i - 1]
+                    changed = True
+                    break
+                else:
+                    continue
+                if v in params or stores.get(v, 0) != 1:
+                    continue
+                # every read of v is in a later statement of the function body
+                earlier = any(isinstance(x, ast.Name) and x.id == v and isinstance(x.ctx, ast.Load) for s_ in fn.body[:i + 1] for x in ast.walk(s_))
+                if earlier:
+                    continue
+                import copy
+                load_path = copy.deepcopy(path)
+                for x in ast.walk(load_path):
+                    if hasattr(x, 'ctx'):
+                        x.ctx = ast.Load()
+                sub = _PathSubst(v, load_path)
+                fn.body[i + 1:] = [sub.visit(s_) for s_ in fn.body[i + 1:]]
+                if drop_stmt:
+                    del fn.body[i]
+                else:
+                    st.targets = [t for t in st.targets if t is not names[0]]
+                changed = True
+                break
+    return tree
+
+
+# ----------------------------------------------------------------------------------------------
 # statement-level desugaring (needs the module's literal tables)
 # ----------------------------------------------------------------------------------------------
 
@@ -162,11 +294,62 @@ class _Subst(ast.NodeTransformer):
 
 
 class Desugar(ast.NodeTransformer):
-    def __init__(self, tables):
+    def __init__(self, tables, classes=()):
         self.tables = tables            # name -> rows (module level and class level literal tables)
+        self.classes = set(classes)
+
+    @staticmethod
+    def _cells(it: ast.AST):
+        """Cells of a literal tuple/list of plain names / constants / attribute paths / f-strings over them (for `for x in (a, b):`)."""
+        def ok(c):
+            if isinstance(c, ast.JoinedStr):
+                return all(isinstance(v, ast.Constant) or (isinstance(v, ast.FormattedValue) and _pure_cell(v.value) and v.format_spec is None) for v in c.values)
+            return _pure_cell(c) and not isinstance(c, ast.Lambda)
+        if isinstance(it, (ast.Tuple, ast.List)) and 1 <= len(it.elts) <= 8 and all(ok(c) for c in it.elts):
+            return list(it.elts)
+        return None
+
+    def _rows(self, it: ast.AST, local_tables):
+        """Rows of the literal table a loop iterates: a local / module-level / class-level name, `self.T` / `cls.T` / `Class.T`, or a display."""
+        if isinstance(it, ast.Name):
+            return local_tables.get(it.id) or self.tables.get(it.id)
+        if isinstance(it, ast.Attribute) and isinstance(it.value, ast.Name) and (it.value.id in ('self', 'cls') or it.value.id in self.classes):
+            return self.tables.get(it.attr)
+        if isinstance(it, (ast.Tuple, ast.List)):
+            return _literal_table(it)
+        return None
+
+    def visit_FunctionDef(self, node):
+        from collections import Counter
+        saved = getattr(self, 'loads', None)
+        self.loads = Counter(x.id for x in ast.walk(node) if isinstance(x, ast.Name) and isinstance(x.ctx, ast.Load))
+        self.stores = Counter(x.id for x in ast.walk(node) if isinstance(x, ast.Name) and isinstance(x.ctx, ast.Store))
+        try:
+            return self.generic_visit(node)
+        finally:
+            self.loads = saved
 
     def _body(self, body: List[ast.stmt], local_tables=None) -> List[ast.stmt]:
         import copy
+        # D0: flag = any(..)/all(..) ; if [not] flag: ...   ->  the call moves into the test (flag read nowhere else, assigned once)
+        body = list(body)
+        j = 0
+        while j + 1 < len(body):
+            a, b = body[j], body[j + 1]
+            if isinstance(a, ast.Assign) and len(a.targets) == 1 and isinstance(a.targets[0], ast.Name) and isinstance(a.value, ast.Call) \
+                    and isinstance(a.value.func, ast.Name) and a.value.func.id in ('any', 'all') and isinstance(b, ast.If) \
+                    and getattr(self, 'loads', None) is not None and self.loads.get(a.targets[0].id, 0) == 1 and self.stores.get(a.targets[0].id, 0) == 1:
+                v = a.targets[0].id
+                t = b.test
+                if isinstance(t, ast.Name) and t.id == v:
+                    b.test = a.value
+                    del body[j]
+                    continue
+                if isinstance(t, ast.UnaryOp) and isinstance(t.op, ast.Not) and isinstance(t.operand, ast.Name) and t.operand.id == v:
+                    t.operand = a.value
+                    del body[j]
+                    continue
+            j += 1
         local_tables = dict(local_tables or {})
         out: List[ast.stmt] = []
         i = 0
@@ -178,9 +361,20 @@ class Desugar(ast.NodeTransformer):
                 rows = _literal_table(st.value)
                 if rows is not None:
                     local_tables[st.targets[0].id] = rows
+            # D3a: for x in (a, b, c): body   ->  unrolled copies (no break/continue in the body)
+            if isinstance(st, ast.For) and not st.orelse and isinstance(st.target, ast.Name) and self._cells(st.iter) is not None \
+                    and not any(isinstance(x, (ast.Break, ast.Continue)) for b in st.body for x in ast.walk(b)) \
+                    and not any(isinstance(x, ast.Name) and x.id == st.target.id and isinstance(x.ctx, ast.Store) for b in st.body for x in ast.walk(b)):
+                for cell in self._cells(st.iter):
+                    for b in st.body:
+                        nb = _Subst({st.target.id: cell}).visit(copy.deepcopy(b))
+                        ast.copy_location(nb, st)
+                        out.append(nb)
+                i += 1
+                continue
             # D3: for a, b in TABLE: body   ->  unrolled copies
-            if isinstance(st, ast.For) and not st.orelse and isinstance(st.iter, (ast.Name, ast.Tuple, ast.List)) and isinstance(st.target, (ast.Tuple, ast.Name)):
-                rows = (local_tables.get(st.iter.id) or self.tables.get(st.iter.id)) if isinstance(st.iter, ast.Name) else _literal_table(st.iter)
+            if isinstance(st, ast.For) and not st.orelse and isinstance(st.iter, (ast.Name, ast.Tuple, ast.List, ast.Attribute)) and isinstance(st.target, (ast.Tuple, ast.Name)):
+                rows = self._rows(st.iter, local_tables)
                 if rows is not None and not any(isinstance(x, (ast.Break, ast.Continue)) for b in st.body for x in ast.walk(b)):
                     names = [t.id for t in st.target.elts] if isinstance(st.target, ast.Tuple) and all(isinstance(t, ast.Name) for t in st.target.elts) else None
                     if names and len(names) == len(rows[0]):
@@ -197,11 +391,7 @@ class Desugar(ast.NodeTransformer):
                     and len(st.value.args) == 1 and isinstance(st.value.args[0], (ast.GeneratorExp, ast.ListComp)) and len(st.value.args[0].generators) == 1:
                 ge = st.value.args[0]
                 g = ge.generators[0]
-                rows = None
-                if isinstance(g.iter, ast.Name):
-                    rows = local_tables.get(g.iter.id) or self.tables.get(g.iter.id)
-                elif isinstance(g.iter, (ast.Tuple, ast.List)):
-                    rows = _literal_table(g.iter)
+                rows = self._rows(g.iter, local_tables)
                 names = [t.id for t in g.target.elts] if isinstance(g.target, ast.Tuple) and all(isinstance(t, ast.Name) for t in g.target.elts) else None
                 if rows is not None and names and len(names) == len(rows[0]):
                     for row in rows:
@@ -254,6 +444,63 @@ class Desugar(ast.NodeTransformer):
                 out.append(loop)
                 i += 2 if consumed else 1
                 continue
+            # annotated empty containers (`xs: List[str] = []`) take part in D5/D6 like plain assignments
+            if isinstance(st, ast.AnnAssign) and isinstance(st.target, ast.Name) and st.value is not None and isinstance(st.value, (ast.List, ast.Dict)) \
+                    and not (st.value.elts if isinstance(st.value, ast.List) else st.value.keys) and isinstance(nxt, ast.For):
+                st = ast.copy_location(ast.Assign(targets=[st.target], value=st.value), st)
+            # D6: L = [] ; for x in C: [if P:] L.append(E)   ->   L = [E for x in C if P]
+            if isinstance(st, ast.Assign) and len(st.targets) == 1 and isinstance(st.targets[0], ast.Name) and isinstance(st.value, ast.List) and not st.value.elts \
+                    and isinstance(nxt, ast.For) and not nxt.orelse and len(nxt.body) == 1 \
+                    and not any(isinstance(x, ast.Name) and x.id == st.targets[0].id for x in ast.walk(nxt.iter)):
+                inner = nxt.body[0]
+                conds = []
+                while isinstance(inner, ast.If) and not inner.orelse and len(inner.body) == 1:
+                    conds.append(inner.test)
+                    inner = inner.body[0]
+                L = st.targets[0].id
+                if isinstance(inner, ast.Expr) and isinstance(inner.value, ast.Call) and isinstance(inner.value.func, ast.Attribute) and inner.value.func.attr == 'append' \
+                        and isinstance(inner.value.func.value, ast.Name) and inner.value.func.value.id == L and len(inner.value.args) == 1 and not inner.value.keywords \
+                        and not any(isinstance(x, ast.Name) and x.id == L for c_ in conds + [inner.value.args[0]] for x in ast.walk(c_)):
+                    tgt = copy.deepcopy(nxt.target)
+                    comp = ast.ListComp(elt=inner.value.args[0], generators=[ast.comprehension(target=tgt, iter=nxt.iter, ifs=conds, is_async=0)])
+                    na = ast.Assign(targets=st.targets, value=comp)
+                    for x in ast.walk(na):
+                        if not hasattr(x, 'lineno'):
+                            ast.copy_location(x, st)
+                    out.append(ast.copy_location(na, st))
+                    i += 2
+                    continue
+            # D5: d = {} ; for k, v in X: d[k] = v   ->   d = {k: v for k, v in X}
+            if isinstance(st, ast.Assign) and len(st.targets) == 1 and isinstance(st.targets[0], ast.Name) and isinstance(st.value, ast.Dict) and not st.value.keys \
+                    and isinstance(nxt, ast.For) and not nxt.orelse and len(nxt.body) == 1 and isinstance(nxt.body[0], ast.Assign) \
+                    and len(nxt.body[0].targets) == 1 and isinstance(nxt.body[0].targets[0], ast.Subscript) \
+                    and isinstance(nxt.body[0].targets[0].value, ast.Name) and nxt.body[0].targets[0].value.id == st.targets[0].id \
+                    and isinstance(nxt.target, ast.Tuple) and len(nxt.target.elts) == 2 and all(isinstance(e, ast.Name) for e in nxt.target.elts) \
+                    and not any(isinstance(x, ast.Name) and x.id == st.targets[0].id for x in ast.walk(nxt.iter)):
+                k_, v_ = nxt.body[0].targets[0].slice, nxt.body[0].value
+                comp = ast.DictComp(key=k_, value=v_, generators=[ast.comprehension(target=copy.deepcopy(nxt.target), iter=nxt.iter, ifs=[], is_async=0)])
+                for x in ast.walk(comp.generators[0].target):
+                    if hasattr(x, 'ctx'):
+                        x.ctx = ast.Store()
+                na = ast.Assign(targets=st.targets, value=comp)
+                for x in ast.walk(na):
+                    if not hasattr(x, 'lineno'):
+                        ast.copy_location(x, st)
+                out.append(ast.copy_location(na, st))
+                i += 2
+                continue
+            # D4: if T: v = A  else: v = B   (A, B plain names / constants)  ->  v = A if T else B
+            if isinstance(st, ast.If) and len(st.body) == 1 and len(st.orelse) == 1 and all(
+                    isinstance(x, ast.Assign) and len(x.targets) == 1 and isinstance(x.targets[0], ast.Name) and isinstance(x.value, (ast.Name, ast.Constant))
+                    for x in (st.body[0], st.orelse[0])) and st.body[0].targets[0].id == st.orelse[0].targets[0].id:
+                na = ast.Assign(targets=[ast.Name(id=st.body[0].targets[0].id, ctx=ast.Store())],
+                                value=ast.IfExp(test=st.test, body=st.body[0].value, orelse=st.orelse[0].value))
+                for x in ast.walk(na):
+                    if not hasattr(x, 'lineno'):
+                        ast.copy_location(x, st)
+                out.append(ast.copy_location(na, st))
+                i += 1
+                continue
             # D2: if [not] any(P for T in C): BODY
             if isinstance(st, ast.If) and not st.orelse:
                 t = st.test
@@ -286,7 +533,20 @@ class Desugar(ast.NodeTransformer):
             i += 1
         return out
 
+    @staticmethod
+    def _continue_guards(body: List[ast.stmt]) -> List[ast.stmt]:
+        """In a loop body: `if P: continue` followed by REST  ->  `if not P: REST`."""
+        for k, st in enumerate(body):
+            if isinstance(st, ast.If) and not st.orelse and len(st.body) == 1 and isinstance(st.body[0], ast.Continue) and k + 1 < len(body):
+                rest = Desugar._continue_guards(body[k + 1:])
+                ni = ast.If(test=negate(st.test), body=rest, orelse=[])
+                ast.copy_location(ni, st)
+                return body[:k] + [ni]
+        return body
+
     def generic_visit(self, node):
+        if isinstance(node, (ast.For, ast.While)) and node.body:
+            node.body = self._continue_guards(list(node.body))
         for fld in ('body', 'orelse', 'finalbody'):
             b = getattr(node, fld, None)
             if isinstance(b, list) and b and isinstance(b[0], ast.stmt):
@@ -313,7 +573,7 @@ def desugar(tree: ast.Module) -> ast.Module:
                     rows = _literal_table(s2.value)
                     if rows is not None:
                         tables[s2.targets[0].id] = rows
-    d = Desugar(tables)
+    d = Desugar(tables, [st.name for st in tree.body if isinstance(st, ast.ClassDef)])
     tree.body = d._body(tree.body)
     # getattr(x, 'const') and immediately applied lambdas everywhere
     tree = _Subst({}).visit(tree)
@@ -321,9 +581,10 @@ def desugar(tree: ast.Module) -> ast.Module:
     return tree
 
 
-def canonicalise(tree: ast.AST) -> ast.AST:
+def canonicalise(tree: ast.AST, computed_attrs=frozenset()) -> ast.AST:
     tree = Canon().visit(tree)
     ast.fix_missing_locations(tree)
+    tree = alias_paths(tree, computed_attrs)
     try:
         tree = desugar(tree)
     except RecursionError:      # pragma: no cover
